@@ -2,6 +2,7 @@
 //   (default)        guard stream: corpus + exhaustive small shapes + seeded random calls -> cases_*.v, cases.anomalies.json
 //   term             termination stream: every iterative routine on degenerate inputs, subprocess + deadline -> term.json
 //   termchild:<i>    (internal) run case i of the file given by --replay, print the result as JSON
+//   recycle[:corpus] recycled-InSitu call sequences (round 6) -> recycle_*.v, recycle.anomalies.json
 //   qrstep           bit-exact traces of the public qrAlgorithm.QRstep on 2x2 blocks -> qr_*.v
 //   --replay <file>  re-execute the call / termination case stored in a replay file
 package main
@@ -28,6 +29,11 @@ func main() {
 		runTermParent(opts, termCases(opts), "term")
 	case opts.Extra == "qrstep":
 		runQRTrace(opts)
+	case strings.HasPrefix(opts.Extra, "recycle") && opts.Replay == "":
+		rng := NewRng(opts.Seed ^ 0x5ec1c1e)
+		seqs := loadRCorpus(strings.TrimPrefix(strings.TrimPrefix(opts.Extra, "recycle"), ":"))
+		seqs = append(seqs, genSeqs(rng, opts.N, opts.Tier)...)
+		runRecycle(opts, seqs, "recycle")
 	case opts.Replay != "":
 		replay(opts)
 	default:
@@ -71,6 +77,7 @@ func replay(opts Opts) {
 	var rp struct {
 		Call  *Call  `json:"call"`
 		TCase *TCase `json:"tcase"`
+		RSeq  *RSeq  `json:"rseq"`
 	}
 	if err := json.Unmarshal(b, &rp); err != nil {
 		Die("replay: %v", err)
@@ -84,7 +91,11 @@ func replay(opts Opts) {
 		runTermParent(opts, []TCase{*rp.TCase}, "replay_term")
 		ab, _ := os.ReadFile(filepath.Join(opts.Out, "replay_term.json"))
 		fmt.Println(string(ab))
+	case rp.RSeq != nil:
+		runRecycle(opts, []RSeq{*rp.RSeq}, "replay_recycle")
+		ab, _ := os.ReadFile(filepath.Join(opts.Out, "replay_recycle.anomalies.json"))
+		fmt.Println(string(ab))
 	default:
-		Die("replay file has neither call nor tcase")
+		Die("replay file has neither call, tcase nor rseq")
 	}
 }
